@@ -85,10 +85,11 @@ Definition with_file (w : world) (p data : bytes) : world :=
   {| w_fs := (p, FFile data) :: w_fs w; w_default_config := w_default_config w; w_tz := w_tz w;
      w_clock := w_clock w; w_or := w_or w; w_sink := w_sink w; w_read_fault := w_read_fault w |}.
 
-(** the file at the (non-empty) path [p] is a regular file with contents [data] that is read
-    without an injected read fault *)
+(** the file at the (non-empty) path [p] -- a path of the world's file system: not the null device,
+    which opens as the empty file whatever the world says (fix F24) -- is a regular file with contents
+    [data] that is read without an injected read fault *)
 Definition file_is (w : world) (p data : bytes) : Prop :=
-  p <> [] /\ lookup_fs w p = Some (FFile data) /\ lookup p (w_read_fault w) = None.
+  p <> [] /\ p <> dev_null /\ lookup_fs w p = Some (FFile data) /\ lookup p (w_read_fault w) = None.
 
 (** the invocation with every period flag (global and sub-command) removed *)
 Definition without_period_flags (i : invocation) : invocation :=
